@@ -4,8 +4,6 @@
    correspondence check against the real ART and RBT on the same operation sequences. *)
 From Verif Require Export Base.Lex MemBuf.Flags MemBuf.KMap MemBuf.Ops MemBuf.Staged MemBuf.VLog.
 
-(* one combined step for the extracted driver: (hazard before the step, L0 result, L1 result) *)
-Definition step01 (s0 : st0) (s1 : st1) (o : op) : (st0 * out) * (st1 * out) * bool :=
-  (step0 s0 o, step1 s1 o, hazard1 s1 o).
-
-Definition out_eqb_list_len (a b : list out) : bool := Nat.eqb (length a) (length b).
+(* one combined step for the extracted driver *)
+Definition step01 (s0 : st0) (s1 : st1) (o : op) : (st0 * out) * (st1 * out) :=
+  (step0 s0 o, step1 s1 o).
